@@ -270,7 +270,6 @@ func H_C18_server() {
 		vAssert(err == nil && vNewPeerOn.proxy == "", "an incoming connection never becomes a peer of a proxied torrent")
 	} else {
 		vReach("refused")
-		vAssert(conn.closed, "a refused connection is closed")
 	}
 	del(h0)
 	del(h1)
